@@ -120,7 +120,9 @@ def bi_rectangular(length_x, length_y, b_min, b_max_x, b_max_y, transpose=False,
     n_min = ceil(n_1_min)
     n_max = floor(n_1_max)
     for n_1 in range(n_min, n_max + 1):
-        n_2 = ceil((length_2 / b_max_2) + 1)
+        # b_max_2 is often length_2 / (n - 1) (see bi_rectangle_nested): the quotient can round to
+        # n - 1 + 1 ulp and ceil() would then add a whole row, pushing the spacing below b_min
+        n_2 = ceil(round(length_2 / b_max_2, 9) + 1)
         b_2 = length_2 / (n_2 - 1)
 
         b_1 = length_1 / (n_1 - 1)
